@@ -752,7 +752,7 @@ def run(ctx):
     n = 5000 if ctx.tier == "quick" else 200000
     explore(ctx, h, drv, n, "main")
     explore(ctx, h, None, 400 if ctx.tier == "quick" else 15000, "text", gens=[(case_text, 1)], with_model=False)
-    if ctx.proof_broken or ctx.corr_broken:
+    if (ctx.proof_broken or ctx.corr_broken) and not ctx.violations:
         ctx.log("obligation or correspondence broken: widening the search for a failing input")
         for i in range(3):
             explore(ctx, h, drv, 3000, "search%d" % i)
